@@ -7,6 +7,7 @@ import (
 	"sort"
 	"strings"
 
+	"github.com/nspcc-dev/neo-go/pkg/core/native/noderoles"
 	"github.com/nspcc-dev/neo-go/pkg/core/state"
 	"github.com/nspcc-dev/neo-go/pkg/io"
 	"github.com/nspcc-dev/neo-go/pkg/smartcontract/trigger"
@@ -191,6 +192,22 @@ func Observe(n *Node, w *world) (*Observation, error) {
 	}
 	o.Sections["contracts"] = sum([]byte(strings.Join(cs, "\n")))
 	o.Detail["contracts"] = strings.Join(cs, " ")
+
+	var roles []string
+	for _, role := range []noderoles.Role{noderoles.StateValidator, noderoles.Oracle, noderoles.NeoFSAlphabet, noderoles.P2PNotary} {
+		ks, since, err := bc.GetDesignatedByRole(role)
+		if err != nil {
+			roles = append(roles, fmt.Sprintf("role%d:err", role))
+			continue
+		}
+		var kk []string
+		for _, k := range ks {
+			kk = append(kk, k.StringCompressed()[:10])
+		}
+		roles = append(roles, fmt.Sprintf("role%d@%d:%s", role, since, strings.Join(kk, ",")))
+	}
+	o.Sections["roles"] = sum([]byte(strings.Join(roles, "\n")))
+	o.Detail["roles"] = strings.Join(roles, " ")
 
 	var bal []string
 	for i, a := range w.accounts {
